@@ -626,6 +626,13 @@ class Unit:
                 except (LostAnchor, Unsupported):
                     pass
         header, body = fn_split(text)
+        if not stub_reason and body is not None and (loops or proofs):
+            # pre-flight: the loop invariants / proof hints must still find their anchors in this body; if not, only this
+            # function leaves the annotations' reach (stub), not the whole unit
+            try:
+                list(splice(body, loops, proofs, key))
+            except (LostAnchor, Unsupported) as e:
+                stub_reason = "%s: %s" % (type(e).__name__, e)
         if stub_reason and body is not None:
             body = "{ unimplemented!() }"
             prefix = prefix + "#[verifier::external_body]\n    "
@@ -910,8 +917,21 @@ def r_fold(text, ctx):
             b2 = body.rstrip()
             if not b2.endswith("false"):
                 raise Unsupported(ctx.key + ": R-fold: fold closure does not end in `false`")
-            b2 = b2[:-5].rstrip() + "\n            first = false;\n        "
-            new = "let mut first = true;\n        for %s in %s: %s.iter() {%s}" % (var, itn, coll, b2)
+            flag = "first"
+            inner = re.search(r"\.iter\(\)\.fold\(true, \|first,", b2)
+            if inner:
+                # nested folds: the inner closure's `first` parameter shadows the outer one; the outer flag gets its own name
+                flag = "first_o"
+                head = b2[:inner.start()]
+                tail = b2[inner.start():]
+                tk = rl.code_toks(rl.lex(tail))
+                k0 = next(i for i, t in enumerate(tk) if t.text == "{")
+                after_inner = tail[tk[rl.match_close(tk, k0)].end:]
+                if len(re.findall(r"\bfirst\b", head)) != 1 or "!first" not in head or re.search(r"\bfirst\b", after_inner):
+                    raise Unsupported(ctx.key + ": R-fold: nested fold whose outer flag is used other than in the leading `if !first`")
+                b2 = re.sub(r"!first\b", "!first_o", head, count=1) + b2[inner.start():]
+            b2 = b2[:-5].rstrip() + "\n            %s = false;\n        " % flag
+            new = "let mut %s = true;\n        for %s in %s: %s.iter() {%s}" % (flag, var, itn, coll, b2)
         else:
             new = "for %s in %s: %s.iter() {%s}" % (var.strip(), itn, coll, body)
         ctx.app("R-fold", rl.norm_ws(text[m.start():open_off + toks[close].end + m2.end()])[:120], rl.norm_ws(new)[:120])
